@@ -239,6 +239,11 @@ def capture_solve(w1):
 
     def ls(matrix, rhs, *a, **k):
         out = orig_ls(matrix, rhs, *a, **k)
+        # a stand-alone AMG solve that used up its cycles without reaching its tolerance says nothing
+        hist_ = getattr(w1, "amg_residual_history", None)
+        so_ = getattr(w1, "solver_options", None) or {}
+        if getattr(w1, "linear_solver_type", "") == "amg" and hist_ and "maxiter" in so_ and len(hist_) - 1 >= so_["maxiter"]:
+            cap["amg_unconverged"] = True
         if "first_solution" not in cap:
             # the initial Darcy solve (unit mobility): never affected by degenerate face weights
             cap["first_solution"] = np.array(out[0], copy=True)
